@@ -20,9 +20,10 @@ from .oblig import prove_equal, prove_valid, reach
 PID = "C05"
 
 
-def warm_key(p, key):
+def warm_keys(p, key):
+    """Earlier updates on the same filter object: another sensor (if there is one), then the same sensor."""
     others = [k2 for k2 in p.s_sensors() if k2 != key]
-    return others[0] if others else key
+    return (others[:1] + [key])
 
 
 def float_update(p, cse, key, e, k=None, warm=True):
@@ -32,11 +33,11 @@ def float_update(p, cse, key, e, k=None, warm=True):
             ekf = pyh.build_ekf_float(p, e, cse=cse, pn=pn, sn=sn, k=k)
             if warm and k is None:
                 # history dimension: an earlier update (other sensor, other inputs) on the same filter object
-                wk = warm_key(p, key)
-                st0 = ekf.State(**{s: float(e.get(s + "__2", 0.375)) for s in p.state})
-                cov0 = ekf.Covariance.from_data(pyh.float_cov(p.state, {f"P_{a}_{b}": e.get(f"P2_{a}_{b}", 1.0 if a == b else 0.125) for a in p.s_state() for b in p.s_state()}))
-                rd0 = ekf.make_reading(wk, **{r: float(e.get(f"z2_{wk}_{r}", 0.625)) for r in p.sensors[wk]})
-                ekf.sensor_model(st0, cov0, sensor_key=wk, sensor_reading=rd0)
+                for wi, wk in enumerate(warm_keys(p, key)):
+                    st0 = ekf.State(**{s: float(e.get(f"{s}__w{wi}", 0.375 + 0.25 * wi)) for s in p.state})
+                    cov0 = ekf.Covariance.from_data(pyh.float_cov(p.state, {f"P_{a}_{b}": e.get(f"Pw{wi}_{a}_{b}", 1.0 if a == b else 0.125) for a in p.s_state() for b in p.s_state()}))
+                    rd0 = ekf.make_reading(wk, **{r: float(e.get(f"zw{wi}_{wk}_{r}", 0.625 - 0.5 * wi)) for r in p.sensors[wk]})
+                    ekf.sensor_model(st0, cov0, sensor_key=wk, sensor_reading=rd0)
             st = ekf.State(**{s: float(e[s]) for s in p.state})
             cov = ekf.Covariance.from_data(pyh.float_cov(p.state, e))
             rd = ekf.make_reading(key, **{r: float(e[f"z_{key}_{r}"]) for r in p.sensors[key]})
@@ -124,13 +125,13 @@ def task(p, cse, key, k, tier, seed):
             ekf = pyh.build_ekf_sym(p, env, pn, sn, cse=cse, k=k)
             if k is None:
                 # history dimension: an earlier update (other sensor, independent symbolic inputs) on the same object
-                wk = warm_key(p, key)
-                env2 = pyh.second_env(env, keep=p.calibration)
-                P2, _ = pyh.sym_cov(p.state, prefix="P2")
-                st0 = ekf.State(**pyh.sym_state_kwargs(p.state, env2))
-                cov0 = ekf.Covariance.from_data(P2)
-                rd0 = ekf.make_reading(wk, **{r: SymReal(z3.Real(f"z2_{wk}_{r}")) for r in p.sensors[wk]})
-                ekf.sensor_model(st0, cov0, sensor_key=wk, sensor_reading=rd0)
+                for wi, wk in enumerate(warm_keys(p, key)):
+                    envw = pyh.second_env(env, suffix=f"__w{wi}", keep=p.calibration)
+                    Pw, _ = pyh.sym_cov(p.state, prefix=f"Pw{wi}")
+                    st0 = ekf.State(**pyh.sym_state_kwargs(p.state, envw))
+                    cov0 = ekf.Covariance.from_data(Pw)
+                    rd0 = ekf.make_reading(wk, **{r: SymReal(z3.Real(f"zw{wi}_{wk}_{r}")) for r in p.sensors[wk]})
+                    ekf.sensor_model(st0, cov0, sensor_key=wk, sensor_reading=rd0)
             st = ekf.State(**pyh.sym_state_kwargs(p.state, env))
             cov = ekf.Covariance.from_data(Psym.copy())
             rd = ekf.make_reading(key, **{r: SymReal(zin[r]) for r in rs})
@@ -156,67 +157,75 @@ def task(p, cse, key, k, tier, seed):
         return part.d
     # accept leaves = those where the returned state is not the input object
     acc = [l for l in leaves if l.value[0].state is not l.value[3]]
-    if len(acc) != 1:
-        part.harness_error(f"{key_base}: expected exactly one accept path, got {len(acc)} of {len(leaves)}")
+    if not acc:
+        part.harness_error(f"{key_base}: no accept path among {len(leaves)} leaves")
         return part.d
-    leaf = acc[0]
-    r, S, innov, st, cov = leaf.value
-    if len(leaf.cuts) != (2 if k is None else 1):
-        part.harness_error(f"{key_base}: unexpected number of inverse cuts: {len(leaf.cuts)}")
-        return part.d
-    cut = leaf.cuts[-1]
-    Xc = pyh.mat_z3(cut["res"])
-    path_assumes = assumes + leaf.pc
-    reach(part, key_base + "/accept-path-sat", path_assumes + pyh.diag_dominant(p.state))
-    wit = pyh.diag_dominant(p.state)
+    key_base0 = key_base
+    for li, leaf in enumerate(acc):
+        if len(acc) > 1:
+            from .common import solve as _solve
 
-    # spec with the *shared* inverse symbols
-    K = pyh.zmatmul(Pz, pyh.zmatmul(pyh.ztranspose(H), Xc))
-    innov_spec = [zin[r] - hspec[r] for r in rs]
-    xs = [env[s] + sum((K[i][j] * innov_spec[j] for j in range(m)), z3.RealVal(0)) for i, s in enumerate(ss)]
-    KHP = pyh.zmatmul(K, pyh.zmatmul(H, Pz))
-    Pspec = pyh.zsub(Pz, KHP)
+            if _solve(leaf.assumes + leaf.pc, 5000).status == "unsat":
+                continue
+            key_base = f"{key_base0}/path{li}"
+        r, S, innov, st, cov = leaf.value
+        if not leaf.cuts:
+            part.harness_error(f"{key_base}: no inverse cut on an accept path")
+            continue
+        cut = leaf.cuts[-1]
+        Xc = pyh.mat_z3(cut["res"])
+        path_assumes = assumes + leaf.pc
+        reach(part, key_base + "/accept-path-sat", path_assumes + pyh.diag_dominant(p.state))
+        wit = pyh.diag_dominant(p.state)
 
-    # replay helpers: the cut symbols are functions of the inputs, so candidates from the solver are re-evaluated end to end
-    def mk_replay(what, i, j=None):
-        def replay(e):
-            got = float_update(p, cse, key, e, k)
-            sp = spec_float(p, key, e)
-            if j is None:
-                return {"impl": float(got[what][i]), "spec": float(sp[what][i])}
-            return {"impl": float(got[what][i, j]), "spec": float(sp[what][i, j])}
+        # spec with the *shared* inverse symbols
+        K = pyh.zmatmul(Pz, pyh.zmatmul(pyh.ztranspose(H), Xc))
+        innov_spec = [zin[r] - hspec[r] for r in rs]
+        xs = [env[s] + sum((K[i][j] * innov_spec[j] for j in range(m)), z3.RealVal(0)) for i, s in enumerate(ss)]
+        KHP = pyh.zmatmul(K, pyh.zmatmul(H, Pz))
+        Pspec = pyh.zsub(Pz, KHP)
 
-        return replay
+        # replay helpers: the cut symbols are functions of the inputs, so candidates from the solver are re-evaluated end to end
+        def mk_replay(what, i, j=None):
+            def replay(e):
+                got = float_update(p, cse, key, e, k)
+                sp = spec_float(p, key, e)
+                if j is None:
+                    return {"impl": float(got[what][i]), "spec": float(sp[what][i])}
+                return {"impl": float(got[what][i, j]), "spec": float(sp[what][i, j])}
 
-    info = {"program": p.id, "cse": cse, "sensor": key, "k": k}
-    if S is None or innov is None:
-        part.harness_error(f"{key_base}: S / innovation not recorded")
-        return part.d
-    if tuple(np.shape(S)) != (m, m) or tuple(np.shape(innov)) != (m, 1):
-        e = seeded_envs(random.Random(seed), 1)[0]
-        path = write_replay(PID, {"key": key_base + "/S-shape", "info": info, "inputs": e, "shapes": [list(np.shape(S)), list(np.shape(innov))]})
-        part.violation(key_base + "/S-shape", f"recorded S / innovation have shapes {np.shape(S)} / {np.shape(innov)}, expected {(m, m)} / {(m, 1)}", path)
-        return part.d
-    for i in range(m):
-        for j in range(m):
-            prove_equal(part, PID, f"{key_base}/S[{rs[i]},{rs[j]}]==HPH'+Q", lift(S[i, j]), Sspec[i][j], path_assumes, tmo, replay=mk_replay("S", i, j), key=f"{key_base}/S[{rs[i]},{rs[j]}]", info=info, all_vars=allv, witness_constraints=wit, seeded_envs=seeded_envs)
-            # the argument of the inverse is that S
-            prove_equal(part, PID, f"{key_base}/inverse-arg[{i},{j}]==S", lift(cut["arg"][i, j]), Sspec[i][j], path_assumes, tmo, replay=mk_replay("S", i, j), key=f"{key_base}/S[{rs[i]},{rs[j]}]", info=info, all_vars=allv, witness_constraints=wit, seeded_envs=seeded_envs)
-        prove_equal(part, PID, f"{key_base}/innovation[{rs[i]}]==z-h", lift(innov[i, 0]), innov_spec[i], path_assumes, tmo, replay=mk_replay("innov", i), key=f"{key_base}/innov[{rs[i]}]", info=info, all_vars=allv, witness_constraints=wit, seeded_envs=seeded_envs)
-    for i, s in enumerate(ss):
-        prove_equal(part, PID, f"{key_base}/state[{s}]==x+K(z-h)", lift(r.state.data[i, 0]), xs[i], path_assumes, tmo, replay=mk_replay("state", i), key=f"{key_base}/state[{s}]", info=info, all_vars=allv, witness_constraints=wit, seeded_envs=seeded_envs)
-        for j in range(n):
-            prove_equal(part, PID, f"{key_base}/cov[{ss[i]},{ss[j]}]==P-KHP", lift(r.covariance.data[i, j]), Pspec[i][j], path_assumes, tmo, replay=mk_replay("cov", i, j), key=f"{key_base}/cov[{ss[i]},{ss[j]}]", info=info, all_vars=allv, witness_constraints=wit, seeded_envs=seeded_envs)
+            return replay
 
-    # consequences on the implementation terms
-    eqz = [zin[r] == hspec[r] for r in rs]
-    for i, s in enumerate(ss):
-        prove_valid(part, f"{key_base}/z==h(x) => state[{s}] unchanged", lift(r.state.data[i, 0]) == env[s], path_assumes + eqz, tmo)
-    symX = [Xc[i][j] == Xc[j][i] for i in range(m) for j in range(i + 1, m)]
-    for i in range(n):
-        for j in range(i + 1, n):
-            prove_valid(part, f"{key_base}/posterior symmetric [{i},{j}] (S^-1 symmetric)", lift(r.covariance.data[i, j]) == lift(r.covariance.data[j, i]), path_assumes + symX, tmo)
+        info = {"program": p.id, "cse": cse, "sensor": key, "k": k}
+        if S is None or innov is None:
+            part.harness_error(f"{key_base}: S / innovation not recorded")
+            return part.d
+        if tuple(np.shape(S)) != (m, m) or tuple(np.shape(innov)) != (m, 1):
+            e = seeded_envs(random.Random(seed), 1)[0]
+            path = write_replay(PID, {"key": key_base + "/S-shape", "info": info, "inputs": e, "shapes": [list(np.shape(S)), list(np.shape(innov))]})
+            part.violation(key_base + "/S-shape", f"recorded S / innovation have shapes {np.shape(S)} / {np.shape(innov)}, expected {(m, m)} / {(m, 1)}", path)
+            return part.d
+        for i in range(m):
+            for j in range(m):
+                prove_equal(part, PID, f"{key_base}/S[{rs[i]},{rs[j]}]==HPH'+Q", lift(S[i, j]), Sspec[i][j], path_assumes, tmo, replay=mk_replay("S", i, j), key=f"{key_base}/S[{rs[i]},{rs[j]}]", info=info, all_vars=allv, witness_constraints=wit, seeded_envs=seeded_envs)
+                # the argument of the inverse is that S
+                prove_equal(part, PID, f"{key_base}/inverse-arg[{i},{j}]==S", lift(cut["arg"][i, j]), Sspec[i][j], path_assumes, tmo, replay=mk_replay("S", i, j), key=f"{key_base}/S[{rs[i]},{rs[j]}]", info=info, all_vars=allv, witness_constraints=wit, seeded_envs=seeded_envs)
+            prove_equal(part, PID, f"{key_base}/innovation[{rs[i]}]==z-h", lift(innov[i, 0]), innov_spec[i], path_assumes, tmo, replay=mk_replay("innov", i), key=f"{key_base}/innov[{rs[i]}]", info=info, all_vars=allv, witness_constraints=wit, seeded_envs=seeded_envs)
+        for i, s in enumerate(ss):
+            prove_equal(part, PID, f"{key_base}/state[{s}]==x+K(z-h)", lift(r.state.data[i, 0]), xs[i], path_assumes, tmo, replay=mk_replay("state", i), key=f"{key_base}/state[{s}]", info=info, all_vars=allv, witness_constraints=wit, seeded_envs=seeded_envs)
+            for j in range(n):
+                prove_equal(part, PID, f"{key_base}/cov[{ss[i]},{ss[j]}]==P-KHP", lift(r.covariance.data[i, j]), Pspec[i][j], path_assumes, tmo, replay=mk_replay("cov", i, j), key=f"{key_base}/cov[{ss[i]},{ss[j]}]", info=info, all_vars=allv, witness_constraints=wit, seeded_envs=seeded_envs)
 
+        # consequences on the implementation terms
+        eqz = [zin[r] == hspec[r] for r in rs]
+        for i, s in enumerate(ss):
+            prove_valid(part, f"{key_base}/z==h(x) => state[{s}] unchanged", lift(r.state.data[i, 0]) == env[s], path_assumes + eqz, tmo)
+        symX = [Xc[i][j] == Xc[j][i] for i in range(m) for j in range(i + 1, m)]
+        for i in range(n):
+            for j in range(i + 1, n):
+                prove_valid(part, f"{key_base}/posterior symmetric [{i},{j}] (S^-1 symmetric)", lift(r.covariance.data[i, j]) == lift(r.covariance.data[j, i]), path_assumes + symX, tmo)
+
+    key_base = key_base0
     for e, got in conc:
         sp = spec_float(p, key, e)
         for nm in ("state", "cov", "S", "innov"):
@@ -275,7 +284,7 @@ def task_shrink(p, key, tier, seed):
 
 def programs_for(tier, seed):
     if tier == "quick":
-        return [CP.P1(), CP.P3(), CP.P8(), CP.P3().restrict(calibration=False)]
+        return [CP.P1(), CP.P3(), CP.P8(), CP.P12(), CP.P3().restrict(calibration=False)]
     ps = CP.all_fixed() + CP.presence_variants(CP.P3())[1:] + CP.presence_variants(CP.P10())[1:]
     ps += [CP.random_program(seed, i) for i in range(10)]
     return ps
